@@ -72,9 +72,16 @@ func helperOutcome(data []byte) (panics []string, accepted string) {
 func childMain() {
 	lim := syscall.Rlimit{Cur: childAddressSpace, Max: childAddressSpace}
 	_ = syscall.Setrlimit(syscall.RLIMIT_AS, &lim)
+	_ = syscall.Setrlimit(syscall.RLIMIT_CORE, &syscall.Rlimit{})
 	in := bufio.NewReader(os.NewFile(3, "wire-in"))
 	out := os.NewFile(4, "wire-out")
 	var hdr [4]byte
+	// warm the package up (lazy initialisers) and say hello: start-up time is
+	// not charged to the first mutant's watchdog
+	helperOutcome([]byte{0, 0, 0, 0})
+	if _, err := out.Write([]byte{0, 0, 0, 0}); err != nil {
+		return
+	}
 	for {
 		if _, err := io.ReadFull(in, hdr[:]); err != nil {
 			return
@@ -117,7 +124,7 @@ func (c *child) start() error {
 		return err
 	}
 	cmd := exec.Command(os.Args[0], "-test.run=^$")
-	cmd.Env = append(os.Environ(), "WIRE_CHILD=1", "GOMAXPROCS=2", "GOTRACEBACK=all")
+	cmd.Env = append(os.Environ(), "WIRE_CHILD=1", "GOMAXPROCS=2", "GOTRACEBACK=crash")
 	cmd.ExtraFiles = []*os.File{pr, pw}
 	c.stderr = &bytes.Buffer{}
 	cmd.Stderr = c.stderr
@@ -129,6 +136,22 @@ func (c *child) start() error {
 	pw.Close()
 	c.cmd, c.to, c.from = cmd, cw, cr
 	c.spawns++
+	hello := make(chan error, 1)
+	go func() {
+		var h [4]byte
+		_, e := io.ReadFull(cr, h[:])
+		hello <- e
+	}()
+	select {
+	case e := <-hello:
+		if e != nil {
+			c.stop()
+			return fmt.Errorf("child did not start: %v: %.300s", e, c.stderr.String())
+		}
+	case <-time.After(3 * time.Minute):
+		c.stop()
+		return fmt.Errorf("child did not start within 3 minutes")
+	}
 	return nil
 }
 
@@ -143,7 +166,10 @@ func (c *child) stop() {
 	c.cmd = nil
 }
 
-// run hands data to the child. fatal != "" when the child died or hung on it.
+// run hands data to the child. fatal != "" when the child died or hung on it;
+// it starts with "alloc: " when that happened inside a memory allocation
+// (runtime out-of-memory, or still zeroing a giant allocation at the watchdog)
+// and with "other: " for every other death (stack overflow, signal, ...).
 func (c *child) run(data []byte) (reply string, fatal string, err error) {
 	if c.cmd == nil {
 		if err := c.start(); err != nil {
@@ -181,17 +207,23 @@ func (c *child) run(data []byte) (reply string, fatal string, err error) {
 			c.to.Close()
 			c.from.Close()
 			c.cmd = nil
-			return "", "process died: " + why, nil
+			kind := "other: "
+			if strings.Contains(why, "out of memory") || strings.Contains(why, "cannot allocate memory") {
+				kind = "alloc: "
+			}
+			return "", kind + "process died: " + why, nil
 		}
 		return r.s, "", nil
 	case <-time.After(childTimeout):
+		// how much memory has it touched? (a stalled giant allocation is being zeroed)
+		rss := rssMiB(c.cmd.Process.Pid)
 		// ask the runtime where it is, then kill
 		_ = c.cmd.Process.Signal(syscall.SIGQUIT)
 		done := make(chan struct{})
 		go func() { _ = c.cmd.Wait(); close(done) }()
 		select {
 		case <-done:
-		case <-time.After(3 * time.Second):
+		case <-time.After(45 * time.Second):
 			_ = c.cmd.Process.Kill()
 			<-done
 		}
@@ -199,7 +231,29 @@ func (c *child) run(data []byte) (reply string, fatal string, err error) {
 		c.to.Close()
 		c.from.Close()
 		c.cmd = nil
-		return "", fmt.Sprintf("no answer within %v (killed) at %s", childTimeout, where), nil
+		kind := "other: "
+		dump := c.stderr.String()
+		for _, m := range []string{"runtime.memclrNoHeapPointers", "runtime.mallocgc", "runtime.makeslice", "runtime.growslice", "runtime.sysMap", "runtime.sysAlloc", "runtime.(*mheap).alloc", "runtime.(*mheap).grow", "runtime.sysUsed", "runtime.madvise"} {
+			if strings.Contains(dump, m+"(") {
+				kind = "alloc: " // still obtaining / zeroing a giant allocation
+				if where == "" {
+					where = m
+				}
+				break
+			}
+		}
+		if kind == "other: " && rss >= 256 {
+			kind = "alloc: "
+			where = fmt.Sprintf("(resident set %d MiB) %s", rss, where)
+		}
+		if kind == "other: " && !strings.Contains(dump, "goroutine ") {
+			// no stack dump: cannot tell a stalled allocation from another hang
+			return "", "", fmt.Errorf("child gave no answer within %v and no stack dump on SIGQUIT (machine overloaded?)", childTimeout)
+		}
+		if where == "" {
+			where = "?? " + goroutine1(dump)
+		}
+		return "", fmt.Sprintf("%sno answer within %v (killed) at %s", kind, childTimeout, where), nil
 	}
 }
 
@@ -221,7 +275,7 @@ func firstLines(s string, marks ...string) string {
 func framesOf(dump string, n int) string {
 	var out []string
 	for _, l := range strings.Split(dump, "\n") {
-		if (strings.HasPrefix(l, "github.com/apache/arrow-go") || strings.HasPrefix(l, "github.com/Query-farm") || strings.HasPrefix(l, "runtime.memclr") || strings.HasPrefix(l, "runtime.makeslice") || strings.HasPrefix(l, "runtime.morestack")) && len(out) < n {
+		if (strings.HasPrefix(l, "github.com/apache/arrow-go") || strings.HasPrefix(l, "github.com/Query-farm") || strings.HasPrefix(l, "runtime.memclr") || strings.HasPrefix(l, "runtime.makeslice") || strings.HasPrefix(l, "runtime.mallocgc") || strings.HasPrefix(l, "runtime.morestack")) && len(out) < n {
 			if i := strings.Index(l, "("); i > 0 {
 				l = l[:i]
 			}
@@ -229,4 +283,51 @@ func framesOf(dump string, n int) string {
 		}
 	}
 	return strings.Join(out, " < ")
+}
+
+func tailOf(s string, n int) string {
+	if len(s) > n {
+		return s[len(s)-n:]
+	}
+	return s
+}
+
+// goroutine1 returns the function names of the main goroutine's stack.
+func goroutine1(dump string) string {
+	i := strings.Index(dump, "goroutine 1 ")
+	if i < 0 {
+		return strings.Join(strings.Fields(tailOf(dump, 400)), " ")
+	}
+	var out []string
+	for _, l := range strings.Split(dump[i:], "\n")[1:] {
+		if l == "" {
+			break
+		}
+		if strings.HasPrefix(l, "\t") {
+			continue
+		}
+		if j := strings.Index(l, "("); j > 0 {
+			l = l[:j]
+		}
+		out = append(out, l[strings.LastIndex(l, "/")+1:])
+		if len(out) >= 14 {
+			break
+		}
+	}
+	return strings.Join(out, " < ")
+}
+
+// rssMiB reads the resident set size of pid from /proc.
+func rssMiB(pid int) int {
+	b, err := os.ReadFile(fmt.Sprintf("/proc/%d/statm", pid))
+	if err != nil {
+		return 0
+	}
+	f := strings.Fields(string(b))
+	if len(f) < 2 {
+		return 0
+	}
+	var pages int
+	fmt.Sscan(f[1], &pages)
+	return pages * os.Getpagesize() >> 20
 }
